@@ -487,7 +487,7 @@ class Features:
     guards_on_other_property: bool = False  #: ``self.a is None or len(self.b) < 5`` (misread by the schema inference)
     joined_str_in_invariants: bool = False  #: f-strings inside invariants
     local_variables_in_functions: bool = False  #: assignments in transpilable functions: cpp asserts, golang/java report errors
-    abstract_without_concrete_descendants: bool = False  #: golang/python/typescript generators assert
+    abstract_without_concrete_descendants: bool = False  #: as a property type: refused by the front end (repair of C11-F1); otherwise golang/python/typescript report an error
     descendants_without_model_type: bool = False  #: class with concrete descendants but no with_model_type: jsonschema asserts
     classes_without_properties: bool = False  #: python jsonization raises ViolationError (empty setter)
     undocumented_classes: bool = False  #: a class without docstring, with >= 2 bases, that gets an interface: java raises ViolationError
